@@ -280,20 +280,30 @@ func Yield() { runtime.Gosched() }
 // Unfinished is the number of spawned goroutines that have not terminated (engine only).
 func Unfinished() int { return 0 }
 
-type event struct {
-	name string
-	data any
+// ---- JSON boundary helpers (DESIGN.md 3.2).  Natively these are the real encoding/json; under the
+// interpreter json.Marshal yields an opaque token that maps back to the Go value and
+// json.Unmarshal of a token hands the code that value.
+
+// JSONBytes renders v as the JSON text a backend/client would send.
+func JSONBytes(v any) []byte {
+	b, err := json.Marshal(v)
+	if err != nil {
+		desync("harness value does not marshal: " + err.Error())
+	}
+	return b
 }
 
-var events []event
+// JSONLine is prefix + JSON text of v (an SSE data line).
+func JSONLine(prefix string, v any) string { return prefix + string(JSONBytes(v)) }
 
-func EventCount() int       { return len(events) }
-func EventName(i int) string { return events[i].name }
-func EventData(i int) any   { return events[i].data }
-func ResetEvents()          { events = nil }
-
-// RecordEvent is used by native harness writers to log an SSE event parsed from real output.
-func RecordEvent(name string, data any) { events = append(events, event{name, data}) }
+// DecodeJSON parses JSON text written by the code under test into a generic value tree.
+func DecodeJSON(b []byte) (any, bool) {
+	var v any
+	if json.Unmarshal(b, &v) != nil {
+		return nil, false
+	}
+	return v, true
+}
 
 // ReplayMain runs every case of $GOSYM_REPLAY against the natively compiled harness.
 func ReplayMain(entries map[string]func()) {
@@ -319,7 +329,7 @@ func ReplayMain(entries map[string]func()) {
 		}
 		seen := map[string]bool{}
 		for k := 0; k < reps; k++ {
-			cur, pos, clock, clockSet, events = c, 0, 0, false, nil
+			cur, pos, clock, clockSet = c, 0, 0, false
 			if f == nil {
 				res.Desync = "no such entry " + c.Entry
 				break
